@@ -10,6 +10,7 @@ import (
 	"os"
 	"path"
 	"runtime/debug"
+	"sync"
 	"time"
 
 	"github.com/rs/zerolog/log"
@@ -89,7 +90,13 @@ func newGenerateCommand() *cobra.Command {
 
 // dedup fsnotify events
 func dedupLoop(configArgs map[string]string, w *fsnotify.Watcher, completedChannel chan<- error) {
+	// Regenerations run on the timer's goroutines. They must not overlap: a slow one that started
+	// from older contents would otherwise finish after (and overwrite the output of) a newer one.
+	var regenerateMutex sync.Mutex
 	regenerate := func() {
+		regenerateMutex.Lock()
+		defer regenerateMutex.Unlock()
+
 		dirsToWatch := generateInWatchMode(configArgs)
 		if dirsToWatch != nil && len(dirsToWatch) > len(w.WatchList()) {
 			for _, dir := range dirsToWatch {
